@@ -834,6 +834,20 @@ func scenarioC11(c *hlib.RunCtx) *hlib.Violation {
 		lastEndAgo = ago - days
 		mgen.WriteCounterFile(t, s, loc, start.Add(-time.Duration(ago)*24*time.Hour), days, t.Biased(2, 5, 6))
 	}
+	// A week whose report is about as large as the server's request limit: many
+	// distinct, long stack counters of an approved build. Known finding
+	// C11-report-larger-than-server-limit: the uploader has no size limit, the
+	// server refuses what is larger than its own; while that finding is listed
+	// (window oversize-report) the week stays safely below the limit.
+	if t.Bool(1, 8) {
+		target := 40<<10 + t.Draw(50<<10)
+		if !strings.Contains(c.Flag("windows"), "oversize-report") && t.Bool(1, 2) {
+			target = 80<<10 + t.Draw(60<<10)
+		}
+		if mgen.WriteBigWeekFile(t, loc, start.Add(-time.Duration(3+t.Draw(10))*24*time.Hour), 1+t.Draw(7), cfg, target) {
+			s.Probe("big-week")
+		}
+	}
 	// what the directory holds before the uploader runs, week by week
 	byWeek := map[string][]*refreport.CountFile{}
 	if ents, err := os.ReadDir(loc); err == nil {
